@@ -153,13 +153,16 @@ def _flags_change_outside(word, regs, nzcv):
 def gen_failsweep(item, rng):
     cfg = {'arch_version': 7, 'have_security_ext': bool(rng.getrandbits(1)), 'have_virt_ext': False, 'have_lpae': False,
            'memory_system_architecture': 'PMSA', 'number_of_mpu_regions': 12}
+    rprof = rng.random() < 0.5
+    if rprof:
+        cfg['is_armv7r_profile'] = True           # ARMv7-R: SDIV/UDIV by zero can be made to trap (SCTLR.DZ)
     devices = G.std_devices()
     G.set_data(devices[2], 0x3C0, bytes(rng.getrandbits(8) for _ in range(0x80)))
     nzcv = rng.getrandbits(4)
     cond = rng.choice([c for c in range(14) if not IT.cond_passed(c, nzcv)])
     mask = rng.choice([8, 8, 4, 0xC, 2])          # last slot (most often: branches are only defined there) or an inner slot
     cpsr = (G.random_cpsr(rng, cfg, mode=rng.choice(['usr', 'svc', 'sys', 'irq']), thumb=1, e=0) & 0x0FFFFFFF) | nzcv << 28
-    regs = {'cpsr': cpsr, 'pc': G.CODE + 4 * rng.randrange(0, 64), 'sys': {'sctlr': G.sctlr_value(m=0, a=0, u=1, te=1)}, 'R': G.random_regfile(rng, cfg),
+    regs = {'cpsr': cpsr, 'pc': G.CODE + 4 * rng.randrange(0, 64), 'sys': {'sctlr': G.sctlr_value(m=0, a=0, u=1, te=1) | (1 << 19 if rprof else 0)}, 'R': G.random_regfile(rng, cfg),
             'spsr': G.random_spsrs(rng, cfg, valid=True)}
     if item['k'] == 'failsweep16':
         n = 65536 // item['of']
@@ -173,7 +176,10 @@ def gen_failsweep(item, rng):
             for _ in range(item['rep']):
                 words.append(((0xE80 + hi) << 4 | rng.getrandbits(4)) << 16 | rng.getrandbits(16))
         rng.shuffle(words)
-    core = {'config': cfg, 'devices': devices, 'regs': regs, 'words': words, 'force': {'it': cond << 4 | mask, 'ctx': 9, 'thumb': 1}, 'no_poke': []}
+    force = {'it': cond << 4 | mask, 'ctx': 9, 'thumb': 1}
+    if rprof or rng.random() < 0.3:
+        force['edge_regs'] = rng.randrange(1, 8)            # operands at the edges of the range, zero among them (a divisor)
+    core = {'config': cfg, 'devices': devices, 'regs': regs, 'words': words, 'force': force, 'no_poke': []}
     return {'scenario': 'failsweep', 'cores': [core], 'events': [], 'max_ticks': len(words) + 2, 'stop_at_done': False, 'cond': cond, 'nzcv': nzcv, 'mask': mask}
 
 
@@ -209,6 +215,10 @@ def gen_trapsweep(item, rng):
         its.append(cond << 4 | mask)
     events = [{'tick': t, 'core': 0, 'kind': 'regime', 'regs': dict(regs, cpsr=(cpsr & ~0x0600FC00) | (its[t] & 3) << 25 | (its[t] >> 2) << 10)} for t in range(1, len(words))]
     regs['cpsr'] = (cpsr & ~0x0600FC00) | (its[0] & 3) << 25 | (its[0] >> 2) << 10
+    # a warm reset arriving in the middle of a block (the regime of that tick is installed first): Reset is an exception too and clears ALL of ITSTATE
+    for t in rng.sample(range(1, len(words)), 6):
+        events.append({'tick': t, 'core': 0, 'kind': 'reset'})
+    events.sort(key=lambda e: (e['tick'], e['kind'] == 'reset'))
     core = {'config': cfg, 'devices': devices, 'regs': regs, 'words': words, 'force': None, 'no_poke': []}
     return {'scenario': 'trapsweep', 'cores': [core], 'events': events, 'max_ticks': len(words) + 2, 'stop_at_done': False, 'nzcv': nzcv}
 
@@ -265,6 +275,10 @@ class FailObserver:
             if any(k != 'und' for k in kinds):
                 b.violate('it.effect', 'failsweep', 'failed_condition_took_exception', 'word %#x under failing condition %d (NZCV %x): %s exception taken' % (
                     arm.opcode, b.case['cond'], b.case['nzcv'], kinds))
+            elif site in ('Sdiv', 'Udiv') and arm.opcode == getattr(arm.executed_opcode, 'instruction', arm.opcode):
+                # SDIV / UDIV are DEFINED instructions: their divide-by-zero trap (ARMv7-R, SCTLR.DZ) belongs to the body that a failing condition skips
+                b.violate('it.effect', site, 'failed_condition_took_exception', '%s (word %#x) under failing condition %d took its divide-by-zero Undefined Instruction trap' % (
+                    name, arm.opcode, b.case['cond']))
             else:
                 b.cover.add('~failsweep-und')
             return
